@@ -76,7 +76,9 @@ var c12NumLits = []string{"0", "1", "5", "5", "5", "7", "-5", "5.5", "-5.5", "0.
 	// zero-padded integers (decimal for the general evaluator): 010 is ten, not eight
 	"010", "0100", "-017", "007", "08"}
 
-var c12StrLits = []string{"", "a", "abc", "abc", "5", "5.5", "a b", "A", "b", "ab", "abd", "a", "abc", "", "B", "true", "-5", "5", "x > 5", "&&", "||", "(a)"}
+var c12StrLits = []string{"", "a", "abc", "abc", "5", "5.5", "a b", "A", "b", "ab", "abd", "a", "abc", "", "B", "true", "-5", "5", "x > 5", "&&", "||", "(a)",
+	// texts that differ only in blanks inside the quotes, and what is left of a parenthesised text without its parentheses
+	"a  b", "a b", " a ", "(a)", "p(1)", "p 1 "}
 
 var c12Grid = []any{
 	int(7), int(5), int(-5), int(0), int8(5), int8(-5), int8(127), int8(-128), int16(5), int16(300), int16(-5), int32(5), int32(-70000),
@@ -155,6 +157,16 @@ func c12GenPred(r *rand.Rand, sql bool) c12Pred {
 	}
 	for i := 0; i < n; i++ {
 		p.Parts = append(p.Parts, c12GenCmp(r, sql))
+	}
+	if n >= 2 && p.Join != "MIX" && r.Intn(12) == 0 {
+		// a flat chain one of whose text literals contains parentheses (they are not grouping)
+		c := &p.Parts[r.Intn(n)]
+		c.IsStr, c.Raw, c.Col = true, "", "s"
+		c.Str = pick(r, []string{"(a)", "p(1)", "a)b", "(("})
+		c.Lit = "'" + c.Str + "'"
+		if c.Op != "=" && c.Op != "==" && c.Op != "!=" {
+			c.Op = pick(r, []string{"==", "!="})
+		}
 	}
 	return p
 }
@@ -339,7 +351,11 @@ func c12GenValue(r *rand.Rand, p c12Pred, col string) any {
 	if k < 55 && len(on) > 0 {
 		c := on[r.Intn(len(on))]
 		if c.IsStr {
-			switch r.Intn(6) {
+			switch r.Intn(8) {
+			case 6: // what a careless normalisation of the predicate text would turn the literal into
+				return strings.NewReplacer("(", " ", ")", " ").Replace(c.Str)
+			case 7:
+				return strings.Join(strings.Fields(c.Str), " ")
 			case 0:
 				return c.Str + "a"
 			case 1:
